@@ -177,7 +177,7 @@ def run(ctx):
                    "harness/lr_tables.py translator", "harness/props/c09.py", "CPython 3.12 running /repo's lr1.py"]
     ctx.assumptions = ["Reduction.source_location is outside the model (checked against the leaves on the Python side)",
                        "python -O (asserts stripped) is outside the model"]
-    ctx.audit()
+    ctx.audit(extra_files=[os.path.join(fw.VERIF, "extract", "lr", "Extract.v")])
     ctx.check_theorems("EmbossV.LR.Properties_C09", "LR/Properties_C09.v", expect_min=6)
 
     driver = L.build_driver(ctx)
